@@ -38,11 +38,17 @@ CHILD_FIELDS = {"children", "inlines", "blocks", "items", "rows", "header"}
 
 
 _ABSORBED = set()
+_SPECIALISED = {}
 
 
 def scc_key(scc):
     """Members of a cycle, closures folded into their fn, helpers that are analysed inlined (vlib/inline.py) folded into their callers."""
     names = set(_CLOS.sub("", d) for d in scc)
+    # a merged fn that is analysed as the recorded fns it replaced (vlib/inline.py) stands for them in the cycle
+    for n in list(names):
+        if n in _SPECIALISED:
+            names.discard(n)
+            names.update(_SPECIALISED[n])
     kept = set(n for n in names if n not in _ABSORBED)
     return "+".join(sorted(kept or names))
 
@@ -87,6 +93,9 @@ def _subject_owned(facts, f):
 
 def classify_scc(facts, scc):
     names = set(_CLOS.sub("", d) for d in scc)
+    for n_ in list(names):
+        if n_ in _SPECIALISED:
+            names.update(_SPECIALISED[n_])
     kinds = set()
     sites = []
     members = []
@@ -133,6 +142,8 @@ def rule_r2(facts, rep, rid="C03-R2"):
     sccs = cg.sccs(local)
     _ABSORBED.clear()
     _ABSORBED.update(f.def_ for f in facts.fn_list if f.absorbed)
+    _SPECIALISED.clear()
+    _SPECIALISED.update(getattr(facts, "specialised", None) or {})
     tab = recursion_table()
     n = 0
     seen_keys = set()
